@@ -64,8 +64,15 @@ def scenario(rng, k, nops, sizes, lat_choices, mode):
                 raw = SlowFile(data if mode == 'read' else b'', vt, lat_iter(r, lat_choices))
                 w = lim.wrap(raw)
                 got, pos = [], 0
+                rewinds = 0
                 for _ in range(nops * 3):
                     d = r.choice(sizes)
+                    if mode == 'read' and got and rewinds < 2 and r.random() < 0.12:
+                        # a failed attempt: the caller rewinds the stream and sends it again (what the backends do before a retry);
+                        # bytes that pass a second time are bytes that pass
+                        if w.seek(0) != 0:
+                            seekok[0] = False
+                        got, rewinds = [], rewinds + 1
                     if mode == 'read':
                         b = w.read(d)
                         if not b:
